@@ -462,6 +462,17 @@ func (e *Env) evalCall(n *SCall) Val {
 			ref = v.Fs[0].S
 		}
 		return boolVal(And(app(">=", ref, h.alloc(e.old)), app("<", ref, h.alloc(e.cur))))
+	case "prefresh":
+		// allocated since the entry of the enclosing loop
+		v := arg(0)
+		if e.pre == nil {
+			sfail("prefresh() only valid in loop invariants")
+		}
+		ref := v.S
+		if _, ok := under(v.T).(*types.Slice); ok {
+			ref = v.Fs[0].S
+		}
+		return boolVal(And(app(">=", ref, h.alloc(e.pre)), app("<", ref, h.alloc(e.cur))))
 	case "allocated":
 		v := arg(0)
 		return boolVal(And(app(">", v.S, "0"), app("<", v.S, h.alloc(e.cur))))
@@ -519,6 +530,18 @@ func (e *Env) evalCall(n *SCall) Val {
 		lit := n.Args[1].(*SLit)
 		t := e.x.resolveType(lit.Val, e.pkg)
 		return e.x.unbox(v, t)
+	case "deref":
+		v := arg(0)
+		pt, ok := under(v.T).(*types.Pointer)
+		if !ok {
+			sfail("deref: not a pointer")
+		}
+		if v.P == nil {
+			v.P = &Ptr{Kind: ptrObj, Root: pt.Elem()}
+		}
+		lv := h.load(e.cur, v, pt.Elem())
+		e.x.noteLoaded(e.cur, lv)
+		return lv
 	case "prefixof":
 		return boolVal(app("str.prefixof", arg(0).S, arg(1).S))
 	case "suffixof":
@@ -752,7 +775,9 @@ func (e *Env) evalQuant(n *SQuant) Val {
 		if !isScalar(t) {
 			sfail("quantified variable %s must have scalar type", v.Name)
 		}
-		vars = append(vars, qv{v.Name, t, sym(e.vc().fresh("q_" + v.Name))})
+		// deterministic names (by nesting depth): the same clause evaluated twice in the
+		// same state yields the same term text
+		vars = append(vars, qv{v.Name, t, sym(fmt.Sprintf("q_%s.%d", v.Name, len(e.x.qsyms)+len(vars)))})
 	}
 	bind := func(shift map[string]string, anchors map[*SIndex]string, probe *anchorProbe) (string, []string) {
 		env := *e
@@ -787,8 +812,12 @@ func (e *Env) evalQuant(n *SQuant) Val {
 	}
 	for _, v := range vars {
 		e.x.qsyms = append(e.x.qsyms, v.symb)
+		e.vc().Bound = append(e.vc().Bound, v.symb)
 	}
-	defer func() { e.x.qsyms = e.x.qsyms[:len(e.x.qsyms)-len(vars)] }()
+	defer func() {
+		e.x.qsyms = e.x.qsyms[:len(e.x.qsyms)-len(vars)]
+		e.vc().Bound = e.vc().Bound[:len(e.vc().Bound)-len(vars)]
+	}()
 	// pass 1: probe for anchors
 	probe := &anchorProbe{vars: map[string]string{}, found: map[string]*SIndex{}, shift: map[string]string{}}
 	for _, v := range vars {
